@@ -788,6 +788,24 @@ class Env:
             c = args[1][2]
             x = args[0]
             return self.assume(x, AV(x[1], 0, mask(x[1]), av.m0 & ~c & mask(x[1]), av.m1 & ~c))
+        if op == 'shr' and args[1][0] == 'c' and av.lo <= av.hi:
+            c = args[1][2] % t[1]
+            x = args[0]
+            mx = mask(x[1])
+            return self.assume(x, AV(x[1], min(av.lo << c, mx), min((av.hi << c) | mask(c), mx)))
+        if op == 'udiv' and args[1][0] == 'c' and args[1][2] and av.lo <= av.hi:
+            c = args[1][2]
+            x = args[0]
+            mx = mask(x[1])
+            return self.assume(x, AV(x[1], min(av.lo * c, mx), min(av.hi * c + c - 1, mx)))
+        if op in ('add_ovf', 'sub_ovf') and args[1][0] == 'c' and av.is_const():
+            c = args[1][2]
+            x = args[0]
+            mx = mask(x[1])
+            if op == 'add_ovf':
+                # x + c overflows  <=>  x > mask - c
+                return self.assume(x, AV(x[1], mx - c + 1, mx)) if av.lo else (self.assume(x, AV(x[1], 0, mx - c)) if c <= mx else False)
+            return self.assume(x, AV(x[1], 0, c - 1)) if av.lo else self.assume(x, AV(x[1], c, mx))
         if op in ('add', 'sub') and args[1][0] == 'c' and av.lo <= av.hi:
             c = args[1][2]
             x = args[0]
